@@ -382,3 +382,25 @@ func init() {
 		return p
 	})
 }
+
+func init() {
+	register(symPkg+"CountCalls", func(fr *frame, args []value) value {
+		r := fr.run()
+		if r.callCounts == nil {
+			r.callCounts = map[string]int{}
+		}
+		r.callCounts[cstr(args[0])] = 0
+		return nil
+	})
+	register(symPkg+"Calls", func(fr *frame, args []value) value {
+		return fr.run().callCounts[cstr(args[0])]
+	})
+}
+
+func init() {
+	register(symPkg+"Steps", func(fr *frame, args []value) value { return fr.run().steps })
+	register(symPkg+"NoteInt", func(fr *frame, args []value) value {
+		fr.run().notes[cstr(args[0])] = fmt.Sprint(asInt64(fr.concretizeInt(args[1])))
+		return nil
+	})
+}
